@@ -11,6 +11,7 @@ import (
 	"time"
 
 	"github.com/cube2222/octosql/execution"
+	"github.com/cube2222/octosql/execution/nodes"
 	"github.com/cube2222/octosql/octosql"
 	"github.com/cube2222/octosql/physical"
 	"github.com/cube2222/octosql/table_valued_functions"
@@ -403,6 +404,7 @@ type c21Poll struct {
 	Snaps  [][][]gen.JV `json:"snaps"` // snapshot i (rows x 2 columns) is what the source returns on its i-th run
 	Rounds int          `json:"rounds"`
 	SrcET  int64        `json:"src_et"` // event time the source attaches to its records (0 = none)
+	Wrap   string       `json:"wrap,omitempty"` // "" | distinct: a stateful operator between the scripted source and poll (it is re-run every round)
 }
 
 type pollSource struct{ node execution.Node }
@@ -426,13 +428,17 @@ func c21PollProp(c c21Poll) ev.Outcome {
 		src.Snaps = append(src.Snaps, msgs)
 	}
 	colT := gen.JT{K: "union", Parts: []gen.JT{{K: "null"}, {K: "int"}, {K: "str"}}}.Oct()
+	var wrapped execution.Node = src
+	if c.Wrap == "distinct" {
+		wrapped = nodes.NewDistinct(src) // what `poll(source=>TABLE(SELECT DISTINCT ...))` polls: the same node object is run once per round
+	}
 	args := map[string]physical.TableValuedFunctionArgument{
 		"source": {
 			TableValuedFunctionArgumentType: physical.TableValuedFunctionArgumentTypeTable,
 			Table: &physical.TableValuedFunctionArgumentTable{Table: physical.Node{
 				Schema:     physical.NewSchema([]physical.SchemaField{{Name: "a", Type: colT}, {Name: "b", Type: colT}}, -1),
 				NodeType:   physical.NodeTypeDatasource,
-				Datasource: &physical.Datasource{Name: "perrun", Alias: "p", DatasourceImplementation: &pollSource{src}, VariableMapping: map[string]string{"p.a": "a", "p.b": "b"}},
+				Datasource: &physical.Datasource{Name: "perrun", Alias: "p", DatasourceImplementation: &pollSource{wrapped}, VariableMapping: map[string]string{"p.a": "a", "p.b": "b"}},
 			}},
 		},
 		"poll_interval": {
@@ -485,6 +491,17 @@ func c21PollProp(c c21Poll) ev.Outcome {
 		}
 		if i >= len(c.Snaps) {
 			i = len(c.Snaps) - 1
+		}
+		if c.Wrap == "distinct" {
+			var out [][]gen.JV
+			seen := map[string]bool{}
+			for _, row := range c.Snaps[i] {
+				if k := mon.RowKey(gen.Octs(row)); !seen[k] {
+					seen[k] = true
+					out = append(out, row)
+				}
+			}
+			return out
 		}
 		return c.Snaps[i]
 	}
@@ -550,11 +567,17 @@ func c21PollProp(c c21Poll) ev.Outcome {
 	if c.SrcET != 0 {
 		o.Classes = append(o.Classes, "poll_source_sets_event_times")
 	}
+	if c.Wrap != "" {
+		o.Classes = append(o.Classes, "poll_over_"+c.Wrap)
+	}
 	return o
 }
 
 func c21PollGen(t *rapid.T) c21Poll {
 	c := c21Poll{Rounds: rapid.SampledFrom([]int{1, 2, 2, 3, 3, 4}).Draw(t, "rounds")}
+	if rapid.IntRange(0, 2).Draw(t, "wrap") == 0 {
+		c.Wrap = "distinct"
+	}
 	if rapid.Bool().Draw(t, "srcet") {
 		c.SrcET = rapid.Int64Range(1, 1<<60).Draw(t, "et")
 	}
@@ -579,7 +602,8 @@ func c21PollGen(t *rapid.T) c21Poll {
 
 func TestC21(t *testing.T) {
 	r := ev.New("C21", "exploration",
-		"tumble: rapid cases of 0-8 records (id, ts, x) + source watermarks through SELECT * FROM tumble(...) over an in-memory table (optimised and not); window length in [1 ns, 2^50 ns] (7 ns .. 1 week, random), "+
+		"tumble_pruned_columns: the tumble cases over a wider source (0-3 time-typed columns before and 0-2 after the declared time field, holding times several windows away) of which the query selects ts, the window bounds and a random subset of the other columns, time_field omitted, optimised and not: every record's window must contain its ts; poll: in a third of the cases a DISTINCT node sits between the scripted source and poll (the same node object is re-run every round; expected snapshot = distinct rows). "+
+			"tumble: rapid cases of 0-8 records (id, ts, x) + source watermarks through SELECT * FROM tumble(...) over an in-memory table (optimised and not); window length in [1 ns, 2^50 ns] (7 ns .. 1 week, random), "+
 			"offset omitted / 0 / negative / beyond one length, time_field explicit or the source's declared one; times walk in quarter-length steps and hit window boundaries +-1 ns, before and after 1970. "+
 			"Oracle: start <= t < end, end - start = length, (start - offset) a multiple of the length counted from the Unix epoch or from 0001-01-01 (one origin for all records of a case), "+
 			"id/ts/x/retraction flag and every watermark unchanged and in order; event time: the source's or window_end. non-trivial: two distinct windows. "+
